@@ -258,6 +258,7 @@ def run(chk: Check):
     chk.assumptions += ['closed-cell reading: a piece running along a grid line may be attributed to either adjacent '
                         'cell; a point on the lowest line of an axis belongs to the first cell',
                         'real-vs-binary64 gap of the model is not proved (bounded by the correspondence)']
+    c04.note_source(chk)
     chk.coq_props('props/C05_Props.v')
     cases = c04.load_corpus('C05') + [c04.gen_case(chk.rng) for _ in range(chk.n(1000, 12000))]
     check_cases(chk, cases)
@@ -295,6 +296,7 @@ def check_cases(chk: Check, cases):
 
 
 def replay(chk: Check, rp):
+    c04.note_source(chk)
     chk.coq_props('props/C05_Props.v')
     case = (rp.get('case') or {}).get('case')
     if case:
